@@ -986,14 +986,14 @@ def families(tier):
                   required_classes=('tie_opt_nonopt', 'dup_optimal', 'n=0',
                                     'd=1', 'd=2')),
       core.Family('pure_np', check_np, strategy=np_strategy,
-                  budget={'quick': 3200, 'thorough': 120000},
+                  budget={'quick': 3200, 'thorough': 100000},
                   shards={'quick': 8, 'thorough': 16},
                   required_classes=('tie_opt_nonopt', 'dup_optimal',
                                     'col0_ties', 'has_inf', 'n=0', 'n=13..40',
                                     'd=1', 'd=4', 'against_has_equal_point',
                                     'col0_distinct(avoids_known_fast_ties)')),
       core.Family('pure_jax', check_jax, strategy=jax_strategy,
-                  budget={'quick': 800, 'thorough': 30000},
+                  budget={'quick': 800, 'thorough': 20000},
                   shards={'quick': 8, 'thorough': 16},
                   required_classes=('tie_opt_nonopt', 'dup_optimal', 'has_inf',
                                     'n=0', 'n=13..40', 'num_shards=1',
@@ -1002,7 +1002,7 @@ def families(tier):
                                     'fast_with_jax_base',
                                     'against_has_equal_point')),
       core.Family('service', check_service, strategy=service_strategy,
-                  budget={'quick': 640, 'thorough': 30000},
+                  budget={'quick': 640, 'thorough': 20000},
                   shards={'quick': 8, 'thorough': 16},
                   required_classes=(
                       'tie_opt_nonopt', 'dup_optimal', 'ram', 'sqlmem',
@@ -1014,7 +1014,7 @@ def families(tier):
                       'has_minimize', 'safety_metric', 'deleted_optimal',
                       'objectives=1', 'objectives=3')),
       core.Family('inram', check_inram, strategy=inram_strategy,
-                  budget={'quick': 1200, 'thorough': 40000},
+                  budget={'quick': 1200, 'thorough': 30000},
                   shards={'quick': 8, 'thorough': 16},
                   required_classes=(
                       'tie_opt_nonopt', 'dup_optimal',
